@@ -5,10 +5,12 @@
 package atroll
 
 import (
+	"encoding/hex"
 	"fmt"
 	"sort"
 	"strconv"
 	"strings"
+	"time"
 
 	"verifh/atrun"
 	"verifh/fakedb"
@@ -45,6 +47,10 @@ func (v Val) arg() atrun.Arg {
 	}
 	return atrun.Arg{T: "null"}
 }
+
+// bindable: kinds the generators pass as bound parameters (the others are written as literals)
+func (v Val) bindable() bool { return v.K == "int" || v.K == "str" || v.K == "float" || v.K == "null" }
+
 func (v Val) lit() string {
 	switch v.K {
 	case "int":
@@ -53,6 +59,12 @@ func (v Val) lit() string {
 		return strconv.FormatFloat(v.float(), 'e', -1, 64)
 	case "str":
 		return "'" + v.V + "'"
+	case "dec":
+		return v.V
+	case "time":
+		return "'" + strings.TrimSuffix(v.V, " 00:00:00.000000") + "'"
+	case "bytes":
+		return "x'" + v.V + "'"
 	}
 	return "NULL"
 }
@@ -94,8 +106,17 @@ func sqlType(c Col) string {
 	if c.Typ == "VARCHAR" {
 		return "VARCHAR(16)"
 	}
-	if c.Typ == "TINYINT" {
-		return "TINYINT"
+	switch c.Typ {
+	case "DECIMAL":
+		return "DECIMAL(10,2)"
+	case "DATETIME":
+		return "DATETIME(6)"
+	case "TIMESTAMP":
+		return "TIMESTAMP(3) NULL"
+	case "CHAR":
+		return "CHAR(16)"
+	case "VARBINARY":
+		return "VARBINARY(16)"
 	}
 	return c.Typ
 }
@@ -204,6 +225,60 @@ func tagged(v fakedb.TaggedValue) (Val, bool) {
 	return Val{}, false
 }
 
+const timeCanon = "2006-01-02 15:04:05.000000"
+
+func vDec(f float64) Val    { return Val{K: "dec", V: strconv.FormatFloat(f, 'f', 2, 64)} }
+func vTime(t time.Time) Val { return Val{K: "time", V: t.UTC().Format(timeCanon)} }
+func vBytes(b []byte) Val   { return Val{K: "bytes", V: hex.EncodeToString(b)} }
+
+func parseTimeAny(s string) (time.Time, bool) {
+	for _, l := range []string{timeCanon, "2006-01-02 15:04:05.999999", "2006-01-02 15:04:05", "2006-01-02", time.RFC3339Nano} {
+		if t, err := time.Parse(l, s); err == nil {
+			return t.UTC(), true
+		}
+	}
+	return time.Time{}, false
+}
+
+// canonCell: a dump cell or a decoded image value (kind, text) of column c in the harness's canonical form;
+// the Go type a value arrives in differs between the two (DECIMAL: decimal text / float64, binary: bytes / string)
+func canonCell(c Col, kind, text string) (Val, bool) {
+	if kind == "null" {
+		return vNull(), true
+	}
+	switch c.Typ {
+	case "DECIMAL":
+		f, err := strconv.ParseFloat(text, 64)
+		return vDec(f), err == nil
+	case "DATETIME", "TIMESTAMP", "DATE":
+		t, ok := parseTimeAny(text)
+		return vTime(t), ok
+	case "VARBINARY", "BLOB":
+		switch kind {
+		case "bytes", "rawhex", "strhex":
+			return Val{K: "bytes", V: text}, true
+		case "raw", "str":
+			return vBytes([]byte(text)), true
+		}
+		return Val{}, false
+	case "FLOAT":
+		f, err := strconv.ParseFloat(text, 64)
+		return vFloat(float64(float32(f))), err == nil
+	case "DOUBLE":
+		f, err := strconv.ParseFloat(text, 64)
+		return vFloat(f), err == nil
+	case "VARCHAR", "CHAR", "TEXT":
+		if kind == "str" || kind == "raw" {
+			return vStr(text), true
+		}
+		return Val{}, false
+	}
+	if kind == "int" || kind == "uint" {
+		return Val{K: "int", V: text}, true
+	}
+	return Val{}, false
+}
+
 // parseDump turns the engine's table dumps into DBState (tables of the scenario only).
 func parseDump(dump []fakedb.TableDump, tables []*Table) (DBState, map[string]int64, error) {
 	out, auto := DBState{}, map[string]int64{}
@@ -228,7 +303,13 @@ func parseDump(dump []fakedb.TableDump, tables []*Table) (DBState, map[string]in
 			}
 			var row Row
 			for i, c := range r {
-				v, ok := tagged(c)
+				col := Col{}
+				if i < nk {
+					col = t.Keys[i]
+				} else {
+					col = t.Cols[i-nk]
+				}
+				v, ok := canonCell(col, c.K, c.V)
 				if !ok {
 					return nil, nil, fmt.Errorf("dump of %s: value kind %s", d.Name, c.K)
 				}
